@@ -136,9 +136,13 @@ func init() {
 			Classify: deadlockIs("no-deadlock"),
 			Main: func() {
 				uid := uidOf(0)
-				r := newE2ERig(newMemManager(), [][]byte{uid}, nil)
+				r := newE2ERig(newMemManager(), [][]byte{uid, uidOf(1)}, nil)
 				rig = r
-				r.serve(numConn)
+				if c.P("second", "") != "" {
+					r.serve(numConn + 1)
+				} else {
+					r.serve(numConn)
+				}
 				vrt.Go("proxy-echo", func() {
 					for {
 						pc, err := r.proxyL.Accept()
@@ -164,6 +168,26 @@ func init() {
 				remote, auth := r.clientCfgFor(cs, uid)
 				remote.NumConn = numConn
 				var sesh *mux.Session
+				// second=<name>: another client in the same process, configured with another server name, connects
+				// at the same time (one connection); each ClientHello must carry its own client's name
+				second := c.P("second", "")
+				var swg sync.WaitGroup
+				if second != "" {
+					swg.Add(1)
+					vrt.Go("second-client", func() {
+						defer swg.Done()
+						cs2 := cs
+						cs2.ServerName, cs2.SID = second, 22
+						remote2, auth2 := r.clientCfgFor(cs2, uidOf(1)) // another user: its session's end must not touch the first client's
+						remote2.NumConn = 1
+						s2 := client.MakeSession(remote2, auth2, r.dialer)
+						if st, err := s2.OpenStream(); err == nil {
+							st.Write([]byte{7})
+							st.Read(make([]byte, 4))
+						}
+						s2.Close()
+					})
+				}
 				sesh = client.MakeSession(remote, auth, r.dialer)
 				var wg sync.WaitGroup
 				for i, sz := range sizes {
@@ -211,10 +235,21 @@ func init() {
 				case "inactivity":
 					time.Sleep(40 * time.Second)
 				}
+				swg.Wait()
 				quiesce()
-				for k := 1; k <= numConn; k++ {
-					if m := checkWire(r, fmt.Sprintf("server:443#%d", k), serverName); m != "" {
-						vrt.Fail("well-formed-tls-stream", "connection %d: %s", k, m)
+				if second != "" {
+					names := map[string]int{}
+					for k := 1; k <= numConn+1; k++ {
+						names[sniOnWire(r, fmt.Sprintf("server:443#%d", k))]++
+					}
+					if names[serverName] != numConn || names[second] != 1 {
+						vrt.Fail("well-formed-tls-stream", "two clients configured with server names %q (%d connections) and %q (1 connection) connected at the same time; the ClientHellos on the wire carry %v", serverName, numConn, second, names)
+					}
+				} else {
+					for k := 1; k <= numConn; k++ {
+						if m := checkWire(r, fmt.Sprintf("server:443#%d", k), serverName); m != "" {
+							vrt.Fail("well-formed-tls-stream", "connection %d: %s", k, m)
+						}
 					}
 				}
 				recs := 0
@@ -227,6 +262,67 @@ func init() {
 			},
 		}
 		_ = rig
+		return vx.RunSched(c, sc, nil)
+	}})
+
+	// wire.hellos: `clients` clients in one process, each configured with its own server name, send
+	// their first flight at the same time (client Transport.Handshake against a peer that only records);
+	// every connection's first flight is one well-formed ClientHello carrying that client's name. Small
+	// enough for unbounded-choice exploration at the stated preemption bound, with recycling pools.
+	vx.Register(&vx.Scenario{Name: "wire.hellos", Prop: "C10", Run: func(c *vx.Ctx) *vx.Report {
+		n := c.PI("clients", 2)
+		browser := c.P("browser", "firefox")
+		sc := &vrt.Scenario{
+			Opt:      vrt.Options{HorizonNs: int64(60 * time.Second)},
+			Classify: deadlockIs("no-deadlock"),
+			Main: func() {
+				r := newE2ERig(nil, nil, nil)
+				var wg sync.WaitGroup
+				names := make([]string, n)
+				first := make([][]byte, n)
+				for i := 0; i < n; i++ {
+					i := i
+					names[i] = fmt.Sprintf("client%d.example.com", i)
+					a, b := r.net.Pair(fmt.Sprintf("h%d", i), false)
+					wg.Add(2)
+					vrt.Go(fmt.Sprintf("client%d", i), func() {
+						defer wg.Done()
+						cs := hsCase{Transport: "direct", Browser: browser, Method: "plain", ProxyMethod: "shadowsocks", SID: uint32(30 + i), ServerName: names[i]}
+						remote, auth := r.clientCfgFor(cs, uidOf(0))
+						a.SetReadDeadline(time.Now().Add(5 * time.Second))
+						remote.Transport.CreateTransport().Handshake(a, auth) // no reply will come: it ends on the deadline
+					})
+					vrt.Go(fmt.Sprintf("recorder%d", i), func() {
+						defer wg.Done()
+						buf := make([]byte, 4096)
+						k, _ := b.Read(buf)
+						first[i] = append([]byte{}, buf[:k]...)
+						for b.Queued() > 0 {
+							k, _ = b.Read(buf)
+							first[i] = append(first[i], buf[:k]...)
+						}
+					})
+				}
+				wg.Wait()
+				for i := 0; i < n; i++ {
+					recs, err := vref.SplitRecords(first[i])
+					if err != nil || len(recs) != 1 || recs[0].Type != 22 {
+						vrt.Fail("well-formed-tls-stream", "client %d: the first flight is not exactly one handshake record (%d records, %v)", i, len(recs), err)
+					}
+					ch, err := vref.ParseHello(recs[0].Body)
+					if err != nil || ch.IsServer {
+						vrt.Fail("well-formed-tls-stream", "client %d: ClientHello: %v", i, err)
+					}
+					if ch.SNI != names[i] {
+						vrt.Fail("well-formed-tls-stream", "client %d is configured with server name %q; the ClientHello on its connection carries %q", i, names[i], ch.SNI)
+					}
+					if len(ch.SessionID) != 32 {
+						vrt.Fail("well-formed-tls-stream", "client %d: session id of %d bytes", i, len(ch.SessionID))
+					}
+				}
+				vrt.Observe("hellos=%d", n)
+			},
+		}
 		return vx.RunSched(c, sc, nil)
 	}})
 
@@ -289,6 +385,12 @@ func init() {
 				add(0, "browser", "chrome", "method", "plain", "ending", end, "draws", d, "sizes", "1,5000")
 			}
 		}
+		// concurrent handshakes with recycling pools: of one session's connections, and of two clients in one process
+		add(map[bool]int{true: 1, false: 2}[q], "browser", "firefox", "sizes", "1", "numconn", "2", "ending", "client-close", "pool", "recycle")
+		add(map[bool]int{true: 2, false: 3}[q], "browser", "firefox", "sizes", "1", "numconn", "1", "ending", "client-close", "pool", "recycle", "second", "other.example.net", "servername", "example.com")
+		for _, br := range []string{"firefox", "chrome"} {
+			jobs = append(jobs, vx.Job{Scenario: "wire.hellos", Params: vx.P("clients", "2", "browser", br, "pool", "recycle"), Bound: map[bool]int{true: 2, false: 3}[q], BudgetS: map[bool]int{true: 100, false: 900}[q], Weight: 4})
+		}
 		jobs = append(jobs, vx.Job{Scenario: "wire.udp", Weight: 6})
 		add(map[bool]int{true: 1, false: 2}[q], "browser", "firefox", "sizes", "1", "numconn", "1", "ending", "client-close")
 		add(map[bool]int{true: 1, false: 2}[q], "browser", "firefox", "sizes", "1", "numconn", "1", "ending", "server-close")
@@ -316,6 +418,25 @@ func extremeDraws(mode string) func(n int, tag string) int {
 		}
 	}
 	return nil
+}
+
+// sniOnWire: the server name in the first record the client sent on that connection ("" if unparsable).
+func sniOnWire(r *e2eRig, pair string) string {
+	var c2s []byte
+	for _, t := range r.net.Tap {
+		if t.Conn == pair && t.Dir == "a>b" {
+			c2s = append(c2s, t.Data...)
+		}
+	}
+	cr, err := vref.SplitRecords(c2s)
+	if err != nil || len(cr) == 0 {
+		return ""
+	}
+	ch, err := vref.ParseHello(cr[0].Body)
+	if err != nil {
+		return ""
+	}
+	return ch.SNI
 }
 
 func parseIntsC(s string) []int {
